@@ -9,6 +9,7 @@ from ..muxsys import mux_spec, INPUT_OPTS
 PROP = "C08"
 I8 = ["RL", "CVc", "LRc", "PSc", "MX", "CVw"]
 L8 = ["PL", "ILw", "ROx"]
+L8M = ["PL", "ILw", "ILm"]   # with a sub-microamp consumer (rail sums far below 1e-6)
 
 
 def extra_letters(pal):
@@ -16,7 +17,8 @@ def extra_letters(pal):
     cv = copy.deepcopy(L["CVc"][1])
     il = copy.deepcopy(L["IL"][1])
     return {"CVw": ("Converter", dict(cv, vo=cv["vo"] * 0.9, limits={"ii": [0.0, 1e-7], "pl": [0.0, 1e-9], "tp": [-100.0, 40.0]})),   # tp: fine at 25 C, exceeded at 60 C
-            "ILw": ("ILoad", dict(il, limits={"vi": [0.0, 1e-3]}))}
+            "ILw": ("ILoad", dict(il, limits={"vi": [0.0, 1e-3]})),
+            "ILm": ("ILoad", dict(ii=4.4649829743e-07))}
 
 
 def railed_spec(case):
@@ -27,9 +29,9 @@ def railed_spec(case):
         if "limits" in c["a"]:
             c["lim"] = c["a"].pop("limits")
     owners = [c for c in spec["comps"] if c["k"] not in LOADS]
-    for c, bit in zip(owners, case["mask"]):
+    for j, (c, bit) in enumerate(zip(owners, case["mask"])):
         if bit:
-            c["r"] = "r_" + c["n"]
+            c["r"] = "r_" + c["n"] if not case.get("blankrails") else (" " * (j + 1) if j % 2 == 0 else "\t" * (j + 1))   # rail names made of blanks / tabs only
     if case["by_rail"]:
         rails = {c["n"]: c["r"] for c in spec["comps"] if c["r"]}
         for c in spec["comps"]:
@@ -245,6 +247,8 @@ def gen_cases(tier):
                     yield dict(fam="tree", f=f, pal=pal, mask=list(mask), by_rail=True, hot=True)
                 if any(mask) and n <= 3:
                     yield dict(fam="tree", f=f, pal=pal, mask=list(mask), by_rail=False, sumnames=True)
+                if any(mask) and n <= 2:
+                    yield dict(fam="tree", f=f, pal=pal, mask=list(mask), by_rail=True, blankrails=True)
                 if n <= 2:
                     for kc in ("load2series", "series2load"):
                         for af in (False, True):
@@ -254,6 +258,15 @@ def gen_cases(tier):
                         opts = pc_options(c, PH2, full=False)[1:2]
                         for pc in opts:
                             yield dict(fam="tree", f=f, pal=pal, mask=list(mask), by_rail=bool(any(mask)), who=c["n"], pc=pc)
+    TM = Trees(["RL", "LRc", "PSc"], L8M)
+    for n in (1, 2, 3):
+        for f in TM.iter_forests(n):
+            if "ILm" in str(f):
+                spec = spec_from_forest(f, pal, 1, 0.37, extra=extra_letters(pal))
+                owners = [c for c in spec["comps"] if c["k"] not in LOADS]
+                for mask in itertools.product((0, 1), repeat=len(owners)):
+                    if any(mask):
+                        yield dict(fam="tree", f=f, pal=pal, mask=list(mask), by_rail=False)
     for k in (1, 2, 3):
         for inputs in itertools.product(INPUT_OPTS, repeat=k):
             if k == 3 and tier == "quick" and inputs[0][0] == "SH":
